@@ -1,6 +1,8 @@
 import SFV.Lemmas.GatherMore
 import SFV.Lemmas.GatherTerm
 import SFV.Lemmas.GatherNested
+import SFV.Lemmas.ScatterRun
+import SFV.Lemmas.StepBase
 /-! # C01 — scatter then gather returns the original list in its original order
 
 Property theorems only; the development is in `SFV/Lemmas/Gather*.lean`, the model in `SFV/Model/Gather.lean`.
@@ -207,6 +209,88 @@ theorem gather_forced {V} (d : Nat) (p : Tag) (ts : List (Tok V)) (hne : ts ≠ 
   obtain ⟨_, h2, h3, h4, h5, h6, h7⟩ := forced_fold d p ts hkey {} ⟨rfl, rfl⟩ rfl
   rw [terms_general d _ h6 pa pb hab sa sb, h7, h3, h4, h5]
   simp [hne, addKey, forceOut, h2]
+
+/-- the status logic the models use (`reduce2` = `_reduce_statuses([a, b])`, `getStatus` = `BaseStep._get_status`) is built from the arms
+    and the if-chains extracted from the source (`SFV/Gen/StepGuards.lean`); spelled out, it is this table -/
+theorem status_logic_spec :
+    (∀ a b : Status, reduce2 a b =
+      (if a = .failed then .failed else if a = .cancelled then .cancelled
+       else if b = .failed then .failed else if b = .cancelled then .cancelled
+       else if a = .recovered ∨ b = .recovered then .recovered
+       else if a = .skipped ∧ b = .skipped then .skipped else .completed)) ∧
+    (∀ (s : Status) (e : Bool), getStatus s e =
+      (if s = .failed then s else if s = .recovered then .completed else if e then .skipped else s)) :=
+  ⟨reduce2_table, getStatus_table⟩
+
+/-- **`ScatterStep.run` as a whole.** Fed the list tokens `ins` (any number, any lengths) and then its termination token, the
+    step puts on its element port the elements of every list retagged `tag.i`, list after list, on its size port one size token
+    per list, and terminates both ports — with status SKIPPED when it emitted no element at all (only empty lists, or nothing). -/
+theorem scatter_run_spec {V} (ins : List (Tag × List V)) (st : Status) :
+    let s := srun (ins.map (fun i => SIn.list i.1 i.2) ++ [SIn.term st])
+    s.elems = ins.flatMap (fun i => (scatter i.1 i.2).1) ∧ s.sizes = ins.map (fun i => (scatter i.1 i.2).2) ∧
+    s.terminated = some (getStatus st ((ins.flatMap (fun i => (scatter i.1 i.2).1)).isEmpty || ins.isEmpty)) ∧ s.raised = false := by
+  obtain ⟨h1, h2, ⟨h3, h4⟩, _⟩ := srun_lists ins ({} : SSt V) ⟨rfl, rfl⟩ rfl
+  simp only [srun, List.foldl_append, List.foldl_cons, List.foldl_nil]
+  simp only [List.nil_append] at h1 h2
+  simp [sstep, h1, h2, h3, h4]
+
+/-- a token that is not a list makes `run` raise: nothing is terminated (the step dies, its ports stay open) -/
+theorem scatter_run_raises {V} (ins : List (Tag × List V)) (t : Tag) :
+    (srun (ins.map (fun i => SIn.list i.1 i.2) ++ [SIn.other (V := V) t])).raised = true ∧
+    (srun (ins.map (fun i => SIn.list i.1 i.2) ++ [SIn.other (V := V) t])).terminated = none := by
+  obtain ⟨_, _, ⟨h3, h4⟩, _⟩ := srun_lists ins ({} : SSt V) ⟨rfl, rfl⟩ rfl
+  simp only [srun, List.foldl_append, List.foldl_cons, List.foldl_nil]
+  simp [sstep, h3, h4]
+
+/-- **`ScatterStep.restore`.** Once the recovery machinery has restored the step on the tokens tagged `valid` (the output port
+    becomes a `FilterTokenPort`), the element port holds exactly the already emitted and the newly scattered elements whose tag is
+    in `valid`, in order; the size token is emitted as usual. -/
+theorem scatter_restore_filters {V} (s : SSt V) (h : s.terminated = none ∧ s.raised = false) (valid : List Tag) (tag : Tag) (xs : List V) :
+    (sstep (sstep s (.restore valid)) (.list tag xs)).elems = (s.elems ++ (scatter tag xs).1).filter (fun t => decide (t.tag ∈ valid)) ∧
+    (sstep (sstep s (.restore valid)) (.list tag xs)).sizes = s.sizes ++ [(scatter tag xs).2] :=
+  sstep_restore_then_list s h valid tag xs
+
+/-- **the two steps composed.** Whatever `ScatterStep.run` put on its two ports for the lists `ins` (distinct tags), delivered to
+    the gather step in ANY interleaving, comes back as exactly one list token per input list, each with its tag and its elements
+    in their original order. -/
+theorem scatter_gather_identity {V} (ins : List (Tag × List V)) (hnd : (ins.map (·.1)).Nodup) (st : Status) (es : List (Ev V))
+    (h : es.Perm ((srun (ins.map (fun i => SIn.list i.1 i.2) ++ [SIn.term st])).elems.map Ev.elem ++
+                  (srun (ins.map (fun i => SIn.list i.1 i.2) ++ [SIn.term st])).sizes.map (fun z => Ev.size z.1 z.2)))
+    (pa pb : PortId) (hab : pa ≠ pb) (sa sb : Status) :
+    (run 1 (es ++ [.term pa sa, .term pb sb])).out.Perm (ins.map (fun i => (i.1, (scatter i.1 i.2).1))) := by
+  obtain ⟨h1, h2, _, _⟩ := scatter_run_spec ins st
+  rw [h1, h2] at h
+  have hre : ∀ l : List (Tag × List V),
+      ((l.flatMap (fun (i : Tag × List V) => (scatter i.1 i.2).1)).map Ev.elem ++
+        (l.map (fun (i : Tag × List V) => (scatter i.1 i.2).2)).map (fun (z : Tag × Nat) => Ev.size z.1 z.2)).Perm
+        (l.flatMap (fun (i : Tag × List V) => scatterEvents i.1 i.2)) := by
+    intro l
+    induction l with
+    | nil => simp
+    | cons i l ih =>
+      simp only [List.flatMap_cons, List.map_cons, List.map_append, scatterEvents]
+      refine List.Perm.trans ?_ (List.Perm.append_left _ ih)
+      simp only [List.append_assoc]
+      refine List.Perm.append_left _ ?_
+      exact List.perm_middle
+  exact (gather_multi_key ins hnd es (h.trans (hre ins)) pa pb hab sa sb).1
+
+/-- **provenance recorded by `_gather`.** Whenever the arrival of a token makes the gather step emit a list token, the inputs it
+    records for it (`input_token_ids`) are the size token received for that key and exactly the element tokens of which the list
+    is the sorted arrangement — nothing missing, nothing foreign. (Forced gathering records a synthesised size token instead:
+    modelled as `sizeReceived = false`, compared with the database by the K-check.) -/
+theorem gather_provenance_complete {V} (d : Nat) (s : St V) (e : Ev V) (ho : s.openSize = true ∧ s.openElem = true)
+    (hd : match e with | .term _ _ => False | _ => True) :
+    ∀ p ∈ provOfStep d s e, p.sizeReceived = true ∧ (p.key, sortToks p.elems) ∈ (step d s e).out ∧ (step d s e).sizes p.key ≠ none :=
+  provOfStep_data d s e ho (by cases e <;> first | exact hd | trivial)
+
+/-- non-vacuity: the second of two elements completes key `0`: one emission whose provenance is both elements -/
+example : (runProv 1 ({} : St Nat) [.size [0] 2, .elem ⟨[0, 1], 7⟩, .elem ⟨[0, 0], 5⟩]).map (fun p => (p.key, p.sizeReceived, p.elems.length)) =
+    [([0], true, 2)] := by decide
+
+/-- non-vacuity: a restore on two of three elements -/
+example : (srun [SIn.list [0] [10, 20, 30], SIn.restore [[0, 0], [0, 2]], SIn.list [1] [40], SIn.term .completed]).elems =
+    [(⟨[0, 0], 10⟩ : Tok Nat), ⟨[0, 2], 30⟩] := by decide
 
 /-- non-vacuity: 12 elements (indices 10 and 11 included), all 13 tokens arriving in reverse order (size first) -/
 example (evs : List (Ev Nat))
